@@ -100,6 +100,8 @@ def gen_args(rng, I, op):
         v = IF.gen_member_value(rng, I, p, 0)
         if v is None and op["style"] in ("bare", "rpclit", "rpcenc"):
             v = IF.gen_value(rng, I, p["type"], 1)
+        if op["style"] in ("rpclit", "rpcenc") and rng.random() < 0.15:
+            v = None        # suds treats rpc parts as optional: the accessor is left out
         if suds_unwraps(op):
             # the wrapper's own attributes / a derived wrapper type cannot be named through the unwrapped call
             v = IF.gen_value(rng, I, p["type"], 1, allow_derived=False)
@@ -174,9 +176,20 @@ def match(spec, node, path="", out=None):
 
 
 def check_request(client, I, op, args, mode="dict"):
-    """-> (mismatches, envelope bytes)"""
+    """-> (mismatches, envelope bytes); mode 'positional': values passed by position (None for an absent one)"""
     svc = getattr(client.service, op["name"])
-    rc = svc(**call_args(client, I, op, args, mode))
+    if mode == "positional":
+        kw = call_args(client, I, op, args, "dict")
+        if suds_unwraps(op):
+            names = [m["name"] for m, _, _ in IF.members_of(I, op["in"][0]["type"][1])]
+        else:
+            names = [param_name(op, p) for p in op["in"]]
+        pos = [kw.get(nm) for nm in names]
+        while pos and pos[-1] is None:
+            pos.pop()
+        rc = svc(*pos)
+    else:
+        rc = svc(**call_args(client, I, op, args, mode))
     env = wsdlkit.envelope_bytes(rc)
     try:
         root, kids = body_children(env)
